@@ -34,6 +34,7 @@ type Cluster struct {
 	links     map[string]*ReplLink // "leaderID>follower name"
 	inflight  int                  // deliveries currently crossing a link
 	qfaults   map[string]*QFault   // follower name -> fault for its next query
+	qfired    map[string]bool      // follower name -> an injected query fault actually fired
 }
 
 // CNode is a logical cluster node (it survives restarts of its DB instance).
@@ -97,7 +98,7 @@ func leaderOpts(c *Cfg, id int) *zenodb.DBOpts {
 }
 
 func NewCluster(e *Env, p *Plan) (*Cluster, error) {
-	c := &Cluster{e: e, p: p, Codec: p.Cfg.Codec, links: map[string]*ReplLink{}, qfaults: map[string]*QFault{}}
+	c := &Cluster{e: e, p: p, Codec: p.Cfg.Codec, links: map[string]*ReplLink{}, qfaults: map[string]*QFault{}, qfired: map[string]bool{}}
 	nl := p.Cfg.Leaders
 	if nl <= 0 {
 		nl = 1
@@ -394,6 +395,18 @@ func (c *Cluster) registerOne(l *CNode, fn *CNode, gen int, partition int, query
 	handler = func(ctx context.Context, sqlString string, isSubQuery bool, subQueryResults [][]interface{}, unflat bool, onFields core.OnFields, onRow core.OnRow, onFlatRow core.OnFlatRow) (interface{}, error) {
 		// single shot: register a replacement (as the feed loop of a server does)
 		defer func() { go c.registerOne(l, fn, gen, partition, query) }()
+		c.mu.Lock()
+		noreg := c.qfaults[fn.Name] != nil && c.qfaults[fn.Name].Kind == "noregister"
+		c.mu.Unlock()
+		if noreg {
+			// the follower has no live handler: the connection this handler
+			// stood for is gone
+			c.e.Count("fault.query.noregister")
+			c.mu.Lock()
+			c.qfired[fn.Name] = true
+			c.mu.Unlock()
+			return nil, common.MarkRetriable(fmt.Errorf("follower %s has no live query connection", fn.Name))
+		}
 		if fn.gen != gen || !fn.Up {
 			c.e.Count("fault.query.dead-follower")
 			return nil, common.MarkRetriable(fmt.Errorf("follower %s is gone", fn.Name))
@@ -404,8 +417,17 @@ func (c *Cluster) registerOne(l *CNode, fn *CNode, gen int, partition int, query
 			delete(c.qfaults, fn.Name)
 		}
 		c.mu.Unlock()
+		fired := func() {
+			c.mu.Lock()
+			c.qfired[fn.Name] = true
+			c.mu.Unlock()
+		}
 		if qf != nil {
 			c.e.Count("fault.query." + qf.Kind)
+			switch qf.Kind {
+			case "err-before", "retriable", "hang":
+				fired()
+			}
 			switch qf.Kind {
 			case "err-before":
 				return nil, fmt.Errorf("simulated failure of %s before any result", fn.Name)
@@ -423,6 +445,7 @@ func (c *Cluster) registerOne(l *CNode, fn *CNode, gen int, partition int, query
 		wrapRow := func() error {
 			rows++
 			if qf != nil && qf.Kind == "err-mid" && rows > qf.Rows {
+				fired()
 				return fmt.Errorf("simulated failure of %s after %d rows", fn.Name, qf.Rows)
 			}
 			return nil
@@ -431,6 +454,7 @@ func (c *Cluster) registerOne(l *CNode, fn *CNode, gen int, partition int, query
 		if qf != nil && qf.Kind == "err-after-fields" {
 			of = func(fields core.Fields) error {
 				onFields(c.xferFields(fields))
+				fired()
 				return fmt.Errorf("simulated failure of %s after the field list", fn.Name)
 			}
 		} else {
@@ -649,4 +673,14 @@ func (c *Cluster) Inflight() int {
 	c.mu.Lock()
 	defer c.mu.Unlock()
 	return c.inflight
+}
+
+// QueryFaultFired reports (and resets) whether an injected query fault of the
+// follower actually fired.
+func (c *Cluster) QueryFaultFired(follower string) bool {
+	c.mu.Lock()
+	defer c.mu.Unlock()
+	f := c.qfired[follower]
+	delete(c.qfired, follower)
+	return f
 }
